@@ -10,7 +10,7 @@ Definition tag_name (t : tag) : string :=
   | TFill => "fill"
   | THit => "hit"
   | TEvict => "evict"
-  | TNegSec => "setsockopt_negative_sec_aborts"
+  | TNegSec => "negative_sec"
   | TBadFd => "badfd"
   | TSaturate => "saturate"
   end.
